@@ -182,8 +182,18 @@ impl Receiver {
             fdt.1.update_expired_state(now);
         });
 
+        // An FDT instance that is never completed times out like any other object
+        let object_timeout = self.config.object_timeout;
+        let instant = Instant::now();
         self.fdt_receivers.retain(|_, fdt| {
             let state = fdt.state();
+            if state == fdtreceiver::FDTState::Receiving {
+                if let (Some(timeout), Some(duration)) =
+                    (object_timeout, fdt.last_activity_duration_since(instant))
+                {
+                    return duration.le(&timeout);
+                }
+            }
             state == fdtreceiver::FDTState::Complete || state == fdtreceiver::FDTState::Receiving
         });
     }
